@@ -53,6 +53,13 @@ namespace cnl::_impl {
         if constexpr (InExponent < 0) {
             for (int in_exponent = InExponent;
                  in_exponent != 0 || (Precise && !(output.significand % OutRadix));) {
+                if (in_exponent == 0) {
+                    // Precise: the input scale is used up; move factors of OutRadix into the exponent
+                    output.significand /= OutRadix;
+                    output.exponent++;
+                    continue;
+                }
+
                 if (output.significand % InRadix) {
                     if (oob(output.significand)) {
                         if (Precise) {
